@@ -340,7 +340,19 @@ def c06_4(ctx):
     idx = f.params()[1]
     txin = "self.tx.txs_in[%s]" % idx
     want = {"lock_time": "self.tx.lock_time", "version": "self.tx.version", "solution_script": txin + ".script", "witness_solution_stack": txin + ".witness", "sequence": txin + ".sequence", "tx_in_idx": idx}
+    # the same fields handed to the context's constructor as keywords (TxContext(lock_time=self.tx.lock_time, ..))
+    for e in list(w.exits) + list(w.effects):
+        for part in ([e.value] if getattr(e, "kind", "") == "return" and getattr(e, "value", None) is not None else [getattr(e, "call", None)]):
+            if isinstance(part, ast.AST):
+                for c in ast.walk(w.sub(part) if hasattr(w, "sub") else part):
+                    if isinstance(c, ast.Call) and c.keywords and norm(c.func).split(".")[-1][:1].isupper():
+                        for kw in c.keywords:
+                            if kw.arg is not None:
+                                got.setdefault(kw.arg, norm(kw.value))
     for k_, v in want.items():
+        if got.get(k_) is None:
+            ctx.undecided("context:%s" % k_, ctx.where(f), "tx_context.%s: no store or constructor keyword of that name found in a form this rule reads" % k_)
+            continue
         ctx.check(got.get(k_) == v, "context:%s" % k_, ctx.where(f), "tx_context.%s is built from `%s`, expected the current value `%s`" % (k_, got.get(k_), v), sample={"field": k_, "source": got.get(k_)})
 
 
